@@ -48,7 +48,10 @@ def check_forward(case):
     lon_o = S.angle_obj(case["kind"], case["lon"])
     lat = S.obj_dec(lat_o)
     lon = S.obj_dec(lon_o)
-    got = cv.llh2xyz(lat_o, lon_o, case["h"], ell)
+    nk = case.get("num", "float")
+    if case["kind"] == "float":
+        lat_o, lon_o = S.as_kind(lat, nk), S.as_kind(lon, nk)
+    got = cv.llh2xyz(lat_o, lon_o, S.as_kind(case["h"], nk), ell)
     if not (isinstance(got, tuple) and len(got) == 3):
         raise Fail("llh2xyz did not return an (x, y, z) tuple", observed=repr(got))
     want = closed_form(lat, lon, case["h"], a, invf)
@@ -69,7 +72,8 @@ def _check_inverse_xyz(x, y, z, case):
     cv = repo.mod("geodepy.convert")
     ell = S.make_ellipsoid(case["ell"])
     a, invf = S.ellipsoid_params(case["ell"])
-    got = cv.xyz2llh(x, y, z, ell)
+    nk = case.get("num", "float")
+    got = cv.xyz2llh(S.as_kind(x, nk), S.as_kind(y, nk), S.as_kind(z, nk), ell)
     if not (isinstance(got, tuple) and len(got) == 3):
         raise Fail("xyz2llh did not return (lat, lon, h)", observed=repr(got))
     lat, lon, h = got
@@ -147,12 +151,14 @@ def _classes(case):
             out.append("h<0")
     if case.get("mode"):
         out.append("mode:" + case["mode"])
+    out.append("num:" + case.get("num", "float"))
     return out
 
 
 forward_cases = st.fixed_dictionaries({
-    "lat": lat_s, "lon": lon_s, "h": h_s, "ell": S.ellipsoid_spec(), "kind": S.angle_kind})
-inv_geo_cases = st.fixed_dictionaries({"lat": lat_s, "lon": lon_s, "h": h_s, "ell": S.ellipsoid_spec()})
+    "lat": S.whole_sometimes(lat_s), "lon": S.whole_sometimes(lon_s), "h": S.whole_sometimes(h_s), "ell": S.ellipsoid_spec(),
+    "kind": S.angle_kind, "num": S.num_kind})
+inv_geo_cases = st.fixed_dictionaries({"lat": lat_s, "lon": lon_s, "h": h_s, "ell": S.ellipsoid_spec(), "num": S.num_kind})
 inv_direct_cases = st.fixed_dictionaries({
     "mode": st.sampled_from(["dir", "dir", "p"]),
     "elev": st.one_of(S.floats(-90, 90), st.sampled_from([0.0, 45.0, -45.0, 89.9999, -89.9999])),
@@ -160,7 +166,7 @@ inv_direct_cases = st.fixed_dictionaries({
     "p": st.one_of(S.log_uniform(1e-12, 6.4e6), S.log_uniform(1e-3, 6.4e6)),
     "zsign": st.sampled_from([1.0, -1.0]),
     "r_off": st.one_of(S.floats(-1e4, 3.99e7), S.floats(-1e4, 1e4), st.just(0.0)),
-    "ell": S.ellipsoid_spec()})
+    "ell": S.ellipsoid_spec(), "num": S.num_kind})
 
 SUBCHECKS = [
     SubCheck("forward_closed_form", check_forward, strategy=forward_cases, nontrivial=_nt, classes=_classes,
